@@ -124,6 +124,13 @@ pub fn tokenize(s: &str) -> Vec<Tok> {
             };
             // a multi-byte character is one token
             i += s[i..].chars().next().map(|ch| ch.len_utf8()).unwrap_or(1);
+            // X.682 writes the level prefix of a component relation as "@." / "@.."; whether white space may separate "@" from
+            // the dots is not claimed: they stay one token
+            if c == b'@' {
+                while i < b.len() && b[i] == b'.' {
+                    i += 1;
+                }
+            }
         }
         out.push(Tok { start, end: i.min(b.len()), class });
     }
@@ -216,17 +223,41 @@ pub fn drive(args: &[String]) -> i32 {
         inputs.push(Input { name: format!("set{i}"), text, toks, base });
     }
     let mut nfiles = 0;
+    let mut selfcheck: Vec<Value> = vec![];
     if let Some(list) = util::arg(args, "--files") {
         for f in std::fs::read_to_string(list).unwrap_or_default().lines() {
             if let Ok(text) = std::fs::read_to_string(f) {
                 let base = observe(&text);
                 let toks = tokenize(&text);
-                // self-check of the tokenizer on foreign text: replacing every gap by one space must
-                // reproduce the baseline, otherwise the file is not used
+                // foreign text: replacing every gap by one space must reproduce the baseline.  Where it does not, the boundaries
+                // at which a single space changes the outcome are looked up and reported one by one (the file is then not used for
+                // the sweeps).  The tokenizer was run over every module of the repository: on the reference tree no boundary is
+                // sensitive to a space.
                 let all_sp: Vec<(usize, &str)> = (0..toks.len().saturating_sub(1)).map(|i| (i, " ")).collect();
-                if base.0 == "ok" && toks.len() > 3 && observe(&relayout(&text, &toks, &all_sp)) == base {
-                    inputs.push(Input { name: format!("file:{}", f.rsplit('/').next().unwrap_or(f)), text, toks, base });
+                let name = format!("file:{}", f.rsplit('/').next().unwrap_or(f));
+                if base.0 != "ok" || toks.len() <= 3 {
+                    continue;
+                }
+                let all = observe(&relayout(&text, &toks, &all_sp));
+                if all == base {
+                    inputs.push(Input { name, text, toks, base });
                     nfiles += 1;
+                } else {
+                    let idx: Vec<usize> = (0..toks.len() - 1).collect();
+                    let found: Vec<Value> = util::par_chunks(&idx, 64, util::threads(), |_, chunk| {
+                        run::install_panic_hook();
+                        chunk.iter().filter_map(|&ti| {
+                            let obs = observe(&relayout(&text, &toks, &[(ti, " ")]));
+                            (obs != base).then(|| json!({"ev": "relayout", "mode": "single boundary", "form": "SP", "cl": toks[ti].class, "cr": toks[ti + 1].class,
+                                "input": name, "encctl": false, "base_status": base.0, "status": obs.0, "same": false,
+                                "asn": format!("...{}...  with a space after token {}", snippet(&text, &toks, ti), &text[toks[ti].start..toks[ti].end])}))
+                        }).collect()
+                    });
+                    if found.is_empty() {
+                        selfcheck.push(json!({"ev": "relayout", "mode": "every boundary", "form": "SP", "cl": "*", "cr": "*", "input": name, "encctl": false,
+                                              "base_status": base.0, "status": all.0, "same": false, "asn": text.chars().take(300).collect::<String>()}));
+                    }
+                    selfcheck.extend(found.into_iter().take(6));
                 }
             }
         }
@@ -296,6 +327,7 @@ pub fn drive(args: &[String]) -> i32 {
         evs
     });
     events.extend(sweeps);
+    events.extend(selfcheck);
     util::write_ndjson(util::arg(args, "--trace").expect("--trace"), &events);
     eprintln!("c13: {} plans, {} generated inputs, {} files, {} events", plans.len(), nsets, nfiles, events.len());
     0
